@@ -34,6 +34,11 @@ BUDGET = {'quick': dict(examples=960, shards=16, seconds=75),
 TYPES = ['string', 'integer', 'number', 'boolean', 'date', 'time', 'datetime', 'duration', 'array', 'object', 'any']
 
 
+NAMED_ZONES = [datetime.timezone(datetime.timedelta(hours=3), 'MSK'), datetime.timezone(datetime.timedelta(hours=4), 'MSK'),
+               datetime.timezone(datetime.timedelta(hours=8), 'CST'), datetime.timezone(datetime.timedelta(hours=-6), 'CST'),
+               datetime.timezone(datetime.timedelta(0), 'UTC'), datetime.timezone(datetime.timedelta(hours=1), 'UTC')]
+
+
 def value_for(t):
     if t == 'string':
         return gen.text_hard(6, edge_ws=True)
@@ -52,7 +57,9 @@ def value_for(t):
         aware = st.tuples(st.datetimes(min_value=datetime.datetime(2, 1, 1), max_value=datetime.datetime(9998, 12, 31)),
                           gen.tzinfos(), st.booleans()).map(
             lambda t_: t_[0].replace(tzinfo=t_[1], microsecond=t_[0].microsecond if t_[2] else 0))
-        return st.one_of(naive, aware, aware)
+        # zone names shared by different offsets (MSK was +4 and is +3; CST is +8 and -6): the offset is what counts
+        named = st.tuples(gen.datetimes(micro=False), st.sampled_from(NAMED_ZONES)).map(lambda t_: t_[0].replace(tzinfo=t_[1]))
+        return st.one_of(naive, aware, aware, named)
     if t == 'duration':
         return st.one_of(st.integers(0, 10 ** 7).map(lambda s: datetime.timedelta(seconds=s)),
                          st.tuples(st.integers(0, 400), st.integers(0, 86399)).map(lambda x: datetime.timedelta(days=x[0], seconds=x[1])))
@@ -79,7 +86,8 @@ def cases_(draw):
     n_cp = draw(st.integers(1, 3))
     ops = ['run']
     for _ in range(draw(st.integers(1, 7))):
-        ops.append(draw(st.sampled_from(['run', 'run', 'run', 'run-process', ('delete', draw(st.integers(1, n_cp))), 'delete-all'])))
+        ops.append(draw(st.sampled_from(['run', 'run', 'run', 'run-process', ('delete', draw(st.integers(1, n_cp))), 'delete-all',
+                                         ('fail-run', draw(st.integers(0, 8)))])))
     # a third of the histories follow a template: run, (run), delete one checkpoint / all, run, (delete another, run)
     if gen.rare(draw, 350):
         which = draw(st.permutations(list(range(1, n_cp + 1))))
@@ -89,7 +97,9 @@ def cases_(draw):
         if draw(st.booleans()):
             ops += ['delete-all', 'run']
     # prebuilt: every Flow object of the history is constructed up front (before any run / delete happens)
-    return {'pkg': pkg, 'n_cp': n_cp, 'ops': ops, 'prebuilt': draw(st.integers(0, 3)) == 0}
+    return {'pkg': pkg, 'n_cp': n_cp, 'ops': ops, 'prebuilt': draw(st.integers(0, 3)) == 0,
+            # checkpoint names: plain, or paths that share their last component (daily/load, weekly/load, ...)
+            'names': draw(st.sampled_from(['plain', 'plain', 'shared-last-component']))}
 
 
 def cases(tier):
@@ -140,11 +150,21 @@ def check(case, ctx):
     total = sum(len(t) for t in tables)
     cp_root = ctx.tmpdir()
 
-    def build(counts):
+    def cp_name(j):
+        if case.get('names') == 'shared-last-component':
+            return ['daily', 'weekly', 'monthly'][j - 1] + '/load'
+        return 'cp%d' % j
+
+    class Boom(Exception):
+        pass
+
+    def build(counts, fail_at=None):
         def counted(j):
             # counts the rows it sees and edits them IN PLACE (the same row objects the checkpoint writer yielded)
             def fn(rows):
                 for r in rows:
+                    if fail_at is not None and j == n_cp + 1 and counts[j] == fail_at:
+                        raise Boom('injected failure of the last step')
                     counts[j] += 1
                     for k, v in r.items():
                         if isinstance(v, str):
@@ -171,7 +191,7 @@ def check(case, ctx):
                     yield it()
         steps = [Src(desc, tables), counted(1)]
         for j in range(1, n_cp + 1):
-            steps.append(dataflows.checkpoint('cp%d' % j, checkpoint_path=cp_root))
+            steps.append(dataflows.checkpoint(cp_name(j), checkpoint_path=cp_root))
             steps.append(counted(j + 1))
         return steps
 
@@ -195,7 +215,8 @@ def check(case, ctx):
                     prebuilt.append((Flow(*st_, mk_tap(cap)) if op == 'run-process' else Flow(*st_), cnt, cap))
     existing = set()
     first = None
-    classes = ['checkpoints=%d' % n_cp] + (['prebuilt-flows'] if case.get('prebuilt') else [])
+    classes = ['checkpoints=%d' % n_cp] + (['prebuilt-flows'] if case.get('prebuilt') else []) + \
+        (['names:shared-last-component'] if case.get('names') == 'shared-last-component' else [])
     resumed = False
     deleted_then_run = False
     pending_delete = False
@@ -206,7 +227,29 @@ def check(case, ctx):
             pending_delete = first is not None
             continue
         if isinstance(op, (tuple, list)):
-            shutil.rmtree(os.path.join(cp_root, 'cp%d' % op[1]), ignore_errors=True)
+            if op[0] == 'fail-run':
+                # a run whose last step fails at its k-th row: no checkpoint is committed by it, not even later when the
+                # abandoned generators are collected; what existed before still exists
+                if op[1] >= total:
+                    continue
+                import gc
+                fc = [0] * (n_cp + 3)
+                try:
+                    with quiet():
+                        Flow(*build(fc, fail_at=op[1])).results(on_error=None)
+                except Exception:
+                    pass
+                else:
+                    raise Violation('failing-run-returned-normally', {'fail_at': op[1]})
+                gc.collect()
+                on_disk = {j for j in range(1, n_cp + 1)
+                           if os.path.exists(os.path.join(cp_root, cp_name(j), 'stream.ndjson'))}
+                if on_disk != existing:
+                    raise Violation('checkpoint-committed-by-a-failed-run', {'got': sorted(on_disk), 'model': sorted(existing),
+                                                                             'fail_at': op[1]})
+                classes.append('failed-run-in-history')
+                continue
+            shutil.rmtree(os.path.join(cp_root, cp_name(op[1])), ignore_errors=True)
             existing.discard(op[1])
             pending_delete = first is not None
             continue
@@ -246,7 +289,7 @@ def check(case, ctx):
         for j in range(1, n_cp + 1):
             if j > resume:
                 existing.add(j)
-        on_disk = {j for j in range(1, n_cp + 1) if os.path.exists(os.path.join(cp_root, 'cp%d' % j, 'stream.ndjson'))}
+        on_disk = {j for j in range(1, n_cp + 1) if os.path.exists(os.path.join(cp_root, cp_name(j), 'stream.ndjson'))}
         if on_disk != existing:
             raise Violation('checkpoints-on-disk', {'got': sorted(on_disk), 'model': sorted(existing)})
         d = copy.deepcopy(dp.descriptor)
